@@ -141,7 +141,7 @@ PROPS["C03"] = {
     "assumptions": COMMON_ASSUMPTIONS,
 }
 PROPS["C06"] = {
-    "families": ["OF"], "ops": "api,enc,prog", "gen_deps": [],
+    "families": ["OF"], "ops": "api,enc,prog,embed", "gen_deps": [],
     "rule": ENC_RULE, "trivial_outputs": ["panic", "err"],
     "level_text": "Theorems: fill_exact / fill_length — the make(Len())+copy idiom returns exactly Len() bytes and, when the pieces fit, their concatenation plus zero padding (the general lemma every container theorem instantiates); all 30 match-payload kinds: size = encoding length and neither call modifies the value; match field and match: encoding length = reported size for any content, match size multiple of 8. Oracle: reported size before and after encoding = bytes produced, on every API-built value of every kind. Container theorems for actions / instructions / messages are pending (decided by oracle + correspondence).",
     "level_note": OF_NOTE,
